@@ -177,7 +177,9 @@ def expand_expr(S, cfg):
     dT = S.vec('dT', (2, n_used), 'nonneg', 0.0, 200.0)
     orig = {k: v.copy() for k, v in subf.items()}
     g = S.function('user_expr', lambda x: 1.0 + x / 1000.0, sign='>0')
-    exprs = {('direct', 0, 0): 'expr0', ('direct', 1, 2): 'expr2', ('statistical', 0, 1): 'expr1'}
+    # the clad split copies one expression text into two columns of a row (OD-MW and MW-ID): same text, own rise each
+    exprs = {('direct', 0, 0): 'expr0', ('direct', 0, 1): 'expr0', ('direct', 1, 2): 'expr2', ('statistical', 0, 1): 'expr1',
+             ('statistical', 0, 0): 'expr1'}
     seen = []
 
     def ev(expr, dT_col):
